@@ -3,6 +3,7 @@ package props
 import (
 	"sort"
 	"time"
+	"verifsim/stubs"
 )
 
 // ---- C12: instance startup profile ----
@@ -64,6 +65,13 @@ func checkStartup(r *R, sp engSpec, res *engResult) {
 		runRetAt     time.Duration = -1
 		failed       int
 	)
+	handed := 0 // tokens of the RPS profile handed out so far (all instances)
+	var okNexts []stubs.Ev
+	for _, e := range res.Evs {
+		if e.Kind == "next" && e.OK && e.Src == "rps" {
+			okNexts = append(okNexts, e)
+		}
+	}
 	lastOf := map[int]string{} // instance task -> kind of its last rps/provider event
 	instTask := map[int]int{}  // task -> instance id
 	for _, e := range res.Evs {
@@ -77,11 +85,32 @@ func checkStartup(r *R, sp engSpec, res *engResult) {
 				}
 				continue
 			}
-			if e.Kind == "next" && !e.OK || e.Kind == "left" && e.N == 0 {
-				if rpsEndAt < 0 {
-					rpsEndAt = e.T
+			if e.Kind == "next" && e.OK {
+				handed++
+				if !sp.PerInstance && handed == sp.RPS.Tokens && rpsEndAt < 0 {
+					rpsEndAt = e.T // the last token of the shared profile has been handed out
 				}
-				lastOf[e.Task] = "rps-exhausted"
+			}
+			if e.Kind == "next" && !e.OK || e.Kind == "left" && e.N == 0 {
+				// the schedule says it is finished: believed only if every token of the profile (known from the
+				// reference) was handed out, or was being handed out (its Next call had started), when this call
+				// returned - a schedule that reports its end early takes instances and, through the finish callback,
+				// the rest of the startup profile with it
+				n := 0
+				for _, o := range okNexts {
+					if o.CallSeq < e.Seq && (!sp.PerInstance || o.Task == e.Task) {
+						n++
+					}
+				}
+				all := n >= sp.RPS.Tokens
+				if all {
+					if rpsEndAt < 0 {
+						rpsEndAt = e.T
+					}
+					lastOf[e.Task] = "rps-exhausted"
+				} else {
+					lastOf[e.Task] = "rps-reported-finished-with-tokens-left"
+				}
 			} else {
 				lastOf[e.Task] = e.Kind
 			}
